@@ -171,6 +171,17 @@ def check_row(type_, v, bs, t):
     except Exception as e:
         return 'in-place-edit-raises', repr(e)
     if type_ == 'sysex':
+        # the payload handed to the constructor as any kind of sequence (the empty one included)
+        payload0 = list(attrs['data'])
+        for kind, seq in (('list', list(payload0)), ('bytes', bytes(payload0)), ('bytearray', bytearray(payload0)),
+                          ('tuple', tuple(payload0)), ('generator', (x for x in payload0)), ('range-or-iter', iter(payload0))):
+            try:
+                c = Message('sysex', data=seq, time=t)
+                if not (c == m) or type(c.data) is not type(m.data) or not (Message.from_bytes(c.bytes(), time=t) == c) \
+                        or not (Message.from_dict(c.dict()) == c):
+                    return 'constructed-from/' + kind, 'sysex built from a %s of %d items: %s' % (kind, len(payload0), core.srepr(c))
+            except Exception as e:
+                return 'constructed-from-raises/' + kind, repr(e)
         # the same message built in two steps: the payload assigned afterwards, from every kind of sequence
         payload = list(attrs['data'])
         for kind, seq in (('list', list(payload)), ('bytes', bytes(payload)), ('bytearray', bytearray(payload)),
